@@ -151,7 +151,18 @@ func genStream(g *rand.Rand, c *CallSpec, b Bias, classU bool) {
 		if g.IntN(8) == 0 {
 			return g.IntN(maxM + 1)
 		}
+		if maxM >= 48 && g.IntN(8) == 0 {
+			return 12 + g.IntN(37) // around the sizes internal queues tend to have
+		}
 		return g.IntN(min(maxM, 5) + 1)
+	}
+	// a caller that is slow to start receiving: the handler's burst piles up
+	// first (only where nothing is flow-controlled)
+	lateRecv := func(n int) []Op {
+		if classU && n > 0 && g.IntN(4) == 0 {
+			return []Op{{K: 'b'}}
+		}
+		return nil
 	}
 	c.MsgLen = 10
 	if g.IntN(5) == 0 {
@@ -162,7 +173,7 @@ func genStream(g *rand.Rand, c *CallSpec, b Bias, classU bool) {
 	switch c.Kind {
 	case KSStream:
 		c.CSendN, c.HSendN = 1, nm()
-		c.CProg = []Op{{K: 's'}, {K: 'c'}, {K: 'R'}}
+		c.CProg = append(append([]Op{{K: 's'}, {K: 'c'}}, lateRecv(c.HSendN)...), Op{K: 'R'})
 		if !classU {
 			c.CProg = []Op{{K: 'f', A: []Op{{K: 's'}, {K: 'c'}}, B: []Op{{K: 'R'}}}}
 		}
@@ -225,7 +236,7 @@ func genStream(g *rand.Rand, c *CallSpec, b Bias, classU bool) {
 		case 3: // early half-close, reply after EOF
 			m := nm()
 			c.CSendN, c.HSendN = 0, m
-			c.CProg = []Op{{K: 'c'}, {K: 'R'}}
+			c.CProg = append(append([]Op{{K: 'c'}}, lateRecv(m)...), Op{K: 'R'})
 			c.HProg = []Op{{K: 'R'}}
 			if m > 0 {
 				c.HProg = append(c.HProg, Op{K: 's', N: m})
@@ -317,13 +328,14 @@ func addMetadataOps(g *rand.Rand, c *CallSpec) {
 		placed = true
 	}
 	if !placed {
-		c.CProg = append(c.CProg, Op{K: 'h'})
+		c.CProg = append(c.CProg, Op{K: 'h', N: 1 + g.IntN(2)})
 	}
-	c.CProg = append(c.CProg, Op{K: 't'})
+	c.CProg = append(c.CProg, Op{K: 't', N: 1 + g.IntN(3)})
 }
 
 func genMix(b Bias) func(g *rand.Rand, tier string) any {
 	return func(g *rand.Rand, tier string) any {
+		b := b // per evaluation: the proxy clamp below must not leak into later evaluations
 		p := &MixParams{}
 		if b.AllTopos {
 			p.Topo.Kind = g.IntN(numTopos)
@@ -504,6 +516,30 @@ func checkStreams(run *MixRun) {
 			continue
 		}
 		early, _ := isEarlyRet(c)
+		// C05, stated separately from C02's exactness: with other calls on the
+		// connection, what one side received carries only its own call's tag, and
+		// its own messages never arrive in inverted order (a loss alone is not an inversion)
+		if len(sim.Order) > 1 {
+			for side, msgs := range [][][]byte{r.HGot, r.CGot} {
+				who := []string{"handler", "caller"}[side]
+				last := -1
+				for i, m := range msgs {
+					cc, d, sq, ok := payloadTag(m)
+					if !ok {
+						continue
+					}
+					if cc != id {
+						e.Violate("C05", "cross-delivery", site, "call %d: %s message #%d belongs to call %d (dir=%c seq=%d)", id, who, i, cc, d, sq)
+						break
+					}
+					if sq < last {
+						e.Violate("C05", "per-call-order", site+"."+who, "call %d: %s received its message seq=%d after seq=%d (%d calls multiplexed)", id, who, sq, last, len(sim.Order))
+						break
+					}
+					last = sq
+				}
+			}
+		}
 		// handler side: what it received is a prefix of what the client sent, in order
 		for i, m := range r.HGot {
 			if !bytes.Equal(m, sim.cmsg(c, i)) {
@@ -759,6 +795,15 @@ func checkMetadata(run *MixRun) {
 		r := sim.Calls[id]
 		c := r.Spec
 		site := kindNames[c.Kind]
+		if r.Started && r.Returned && r.HInvoked == 0 && len(c.ReqMD) > 0 && c.Timeout == 0 {
+			// a fault-free world: a call that carries metadata and never reaches its
+			// handler did not deliver that metadata (e.g. rejected as undecodable)
+			err, _ := callerErr(r)
+			if c.Kind != KUnary && r.NewStreamErr != nil {
+				err = r.NewStreamErr
+			}
+			e.Violate(prop, "request-metadata-not-delivered", site, "call %d carried %d metadata keys; its handler never ran and the caller got: %v", id, len(c.ReqMD), err)
+		}
 		if !r.Returned || r.HInvoked != 1 {
 			continue
 		}
@@ -816,6 +861,22 @@ func checkMetadata(run *MixRun) {
 				e.Violate(prop, "response-trailer", site, "call %d: Trailer() differs from what the handler set: %s", id, d)
 			}
 			e.Note("md.trailer")
+			for k, again := range r.CTrailerAgain {
+				if d := mdEqual(want, again); d != "" {
+					e.Violate(prop, "response-trailer-reread", site, "call %d: Trailer() read again (read %d) differs from what the handler set: %s", id, k+2, d)
+					break
+				}
+				e.Note("md.trailer.reread")
+			}
+		}
+		if r.CHeaderSet && r.CHeaderErr == nil {
+			want := joinOps(c.HProg, "HS")
+			for k, again := range r.CHeaderAgain {
+				if d := mdEqual(want, again); d != "" {
+					e.Violate(prop, "response-header-reread", site, "call %d: Header() read again (read %d) differs from what the handler set: %s", id, k+2, d)
+					break
+				}
+			}
 		}
 	}
 }
